@@ -72,6 +72,13 @@ def prov_sort_key(repo, tier="quick"):
      obs.append(ob_fail(oid, fi, call, construct="sort key", instance="key", reason="the sort key does not start with the attribute value (membership)")))
     (obs.append(ob_ok(oid, fi, call, construct="relabel_nodes(graph, mapping)", instance="graph", reason="the argument graph is relabelled")) if g == graph else
      obs.append(ob_fail(oid, fi, call, construct="relabel_nodes(%s, ...)" % show(g), instance="graph", reason="not the argument graph is relabelled")))
+    # every exit returns the relabelled graph
+    for n in cfg.nodes:
+        if n.kind == "stmt" and isinstance(n.ast, ast.Return):
+            rt = fl.canon(n.ast.value, n.id) if n.ast.value is not None else None
+            (obs.append(ob_ok(oid, fi, n.ast, construct="return <relabelled graph>", instance="return", reason="keys are 0..n-1 whatever the input numbering was")) if rt == ct else
+             obs.append(ob_fail(oid, fi, n.ast, construct="return %s" % (show(rt) if rt else "None"), instance="return",
+                                reason="a path returns a graph that was not relabelled: keys are not guaranteed to be 0..n-1 (holes after a squash)")))
     # call sites sort by fragid
     for caller_fq in ("resolve:MoleculeResolver.resolve", "sample:MoleculeSampler.sample"):
         caller = repo.function(caller_fq)
@@ -129,6 +136,27 @@ def prov_relative_attr(repo, tier="quick"):
                       reason="node references survive the renumbering")) if ok else
      obs.append(ob_fail(oid, fi, construct="remapping of relative attributes", instance="remap",
                         reason="node-referencing attributes are not translated through the relabelling map and written back")))
+    # inside, every entry of the attribute is rewritten (no path through an iteration skips the store)
+    for n in cfg.nodes:
+        if n.kind == "for":
+            it = strip_wrappers(fl.canon(n.ast.iter, n.id))
+            m = method_call(it, "items")
+            c = is_call(m[0], "networkx.get_node_attributes") if m else None
+            if c and c[0] and c[0][0] == R:
+                stores = {x.id for x in cfg.nodes if x.kind == "stmt" and isinstance(x.ast, ast.Assign) and isinstance(x.ast.targets[0], ast.Subscript)
+                          and x.id in cfg.loops.get(n.id, set()) and elem_of(fl.canon(x.ast.targets[0].slice, x.id)) and
+                          elem_of(fl.canon(x.ast.targets[0].slice, x.id))[0] == "key"}
+                starts = [d for d, lab in cfg.succ[n.id] if lab == "iter"]
+                skip = False
+                for s0 in starts:
+                    if s0 in stores:
+                        continue
+                    reach = {s0} | cfg.reachable_from(s0, avoid=stores, edge_filter=lambda a, b, l: l != "exc")
+                    if n.id in reach:
+                        skip = True
+                (obs.append(ob_fail(oid, fi, n.ast, construct="an entry of the attribute can be skipped", instance="every-entry",
+                                    reason="node references of some nodes are not translated (an annotated atom can keep its key while the atoms it refers to move)")) if skip or not stores else
+                 obs.append(ob_ok(oid, fi, n.ast, construct="new_dict[key] = remapped values for every entry", instance="every-entry", reason="all node references are translated")))
     # the loop ranges over all entries of relative_attr
     loops = [n for n in cfg.nodes if n.kind == "for" and strip_wrappers(fl.canon(n.ast.iter, n.id)) == ("param", "relative_attr")]
     (obs.append(ob_ok(oid, fi, loops[0].ast, construct="for attr, is_list in relative_attr", instance="range", reason="every listed attribute is handled")) if loops else
